@@ -54,6 +54,10 @@ func (s *S3Proxy) getConfig(ctx context.Context, access, secret string) (aws.Con
 		config.WithRegion(s.awsRegion),
 		config.WithCredentialsProvider(creds),
 		config.WithHTTPClient(client),
+		// do not ask the endpoint for checksums on behalf of clients that did not:
+		// by default the SDK sends x-amz-checksum-mode: ENABLED with every GetObject
+		// and the x-amz-checksum-* headers of the answer went on to the client
+		config.WithResponseChecksumValidation(aws.ResponseChecksumValidationWhenRequired),
 	}
 
 	if s.disableChecksum {
